@@ -79,6 +79,8 @@ pub struct Opts {
     pub max_reps: usize,
     /// when true, never insert into a list directly after an element holding an incremented counter (known finding exclusion)
     pub avoid: Vec<String>,
+    /// splice_text may insert a lone combining accent (only checks that classify the grapheme known finding enable it)
+    pub lone_combining: bool,
 }
 
 #[derive(Clone, Debug)]
@@ -372,7 +374,8 @@ impl Interp {
                     let b = bounds(&self.reps[r].doc, &o);
                     let i = sel(s.b, b.len());
                     let j = (i + sel(s.c, 4)).min(b.len() - 1);
-                    let frag = if s.n < 0 { "" } else { FRAGS[sel(s.d, FRAGS.len())] };
+                    // n == 11: a lone combining accent (joins the preceding character into one grapheme cluster)
+                    let frag = if s.n < 0 { "" } else if s.n == 11 && self.opts.lone_combining { "\u{301}" } else { FRAGS[sel(s.d, FRAGS.len())] };
                     done!(self.reps[r].doc.splice_text(&o, b[i], (b[j] - b[i]) as isize, frag));
                 }
             }
